@@ -344,6 +344,7 @@ func runC07(c *Check) {
 	c.ruleConflictsAccumulatedForEveryInput("R11")
 	c.ruleTrustedAnswerNeedsEntry("R12")
 	c.ruleFlagRaisedBehindItsArgument("R13")
+	c.ruleSafeDecidedBeforeDelivery("R14")
 	c.ruleLoopVisitsAll("R7", "spynode.(*Node).checkTxDelays", func(v ssa.Value) bool {
 		return derivesFromCall(v, "(*storage.TxRepository).GetNewSafe") != nil
 	}, "newly-safe-tx", "the loop over the txs whose delay has passed can be left early: the txs after that point were already marked safe in the repository by GetNewSafe and are never returned again, so they are never reported safe")
